@@ -29,10 +29,10 @@ Proof.
 Qed.
 
 Definition Pr (e : expr) : Prop :=
-  forall e', inF (fun _ => true) true e = true -> remove e = Some e' ->
+  forall e', inF (fun _ => true) (fun _ => true) (fun _ => true) true e = true -> remove e = Some e' ->
     forall s rho c, DEN s rho e' c = DEN s rho e c.
 Definition Qr (cn : cond) : Prop :=
-  forall c', inFc (fun _ => true) true cn = true -> removec cn = Some c' ->
+  forall c', inFc (fun _ => true) (fun _ => true) (fun _ => true) true cn = true -> removec cn = Some c' ->
     forall s rho, DENC s rho c' = DENC s rho cn.
 
 Lemma nth_den_ListTensor s rho es c :
@@ -42,7 +42,7 @@ Proof. apply den_ListTensor. Qed.
 
 Lemma rvalue_list es :
   (forall x, In x es -> Pr x) ->
-  forall es', inF_list (fun _ => true) true es = true -> remove_list es = Some es' ->
+  forall es', inF_list (fun _ => true) (fun _ => true) (fun _ => true) true es = true -> remove_list es = Some es' ->
     forall s rho n c, nth_den_l A env D DX ki s rho es' n c = nth_den_l A env D DX ki s rho es n c.
 Proof.
   induction es as [|x es IH]; intros HP es' G H; simpl in H.
@@ -105,7 +105,7 @@ Proof.
 Qed.
 
 (* C23_remove_value: real mode leaves the value of every component unchanged for real data *)
-Theorem C23_remove_value : forall e e', inF (fun _ => true) true e = true -> remove e = Some e' ->
+Theorem C23_remove_value : forall e e', inF (fun _ => true) (fun _ => true) (fun _ => true) true e = true -> remove e = Some e' ->
   forall s rho c, DEN s rho e' c = DEN s rho e c.
 Proof. intros e e' G H. exact (proj1 rvalue_both e e' G H). Qed.
 End RealMode.
